@@ -51,6 +51,16 @@ def points(case):
     if case.get("point") is not None:
         yield np.array(case["point"], dtype=float)
         return
+    if case["fn"] == "griewank":
+        # the formula of the gradient divides by cos(x_i / sqrt(i)): the points where one
+        # of these factors vanishes are regular points of the function
+        for i in range(n):
+            for k in (-2, -1, 0, 1):
+                z = np.sqrt(i + 1.0) * (np.pi / 2 + k * np.pi)
+                if abs(z) <= 5.0:
+                    x = np.array([vv[(i + 2 * j) % 9] for j in range(n)])
+                    x[i] = z
+                    yield x
     if case["mode"] == "full":
         for c in itertools.product(vv, repeat=n):
             yield np.array(c)
@@ -90,6 +100,7 @@ def run(case):
             fb = f(buf)
             gb = np.array(g(buf), copy=True)
         swept.append((fb, gb))
+    held = None        # (live array returned for the previous point, copy taken then)
     for i, x in enumerate(points(case)):
         nex += 1
         sub = dict(case, point=[float(t) for t in x])
@@ -113,6 +124,10 @@ def run(case):
         if np.ndim(fx) != 0 or np.iscomplexobj(fx) or not np.isfinite(fx):
             viol.append(V("function_value_not_a_real_scalar", _case=sub, value=repr(fx)))
             continue
+        if held is not None and not np.array_equal(held[0], held[1]):
+            viol.append(V("gradient_returned_earlier_changed_by_a_later_call", _case=sub))
+        if isinstance(gx, np.ndarray):
+            held = (gx, gx.copy())
         gx = np.asarray(gx)
         if gx.shape != x.shape:
             viol.append(V("gradient_shape_differs_from_x", _case=sub, shape=gx.shape))
